@@ -14,6 +14,7 @@ import (
 	"os/exec"
 	"path/filepath"
 	"runtime"
+	"runtime/debug"
 	"sort"
 	"sync"
 	"time"
@@ -182,7 +183,8 @@ func main() {
 	list := flag.Bool("list", false, "print the scenario specs and exit")
 	one := flag.String("one", "", "run a single spec given as JSON in this process (debugging)")
 	flag.Parse()
-	runtime.GOMAXPROCS(1) // the scheduler hands a baton around; more Ps only add contention
+	runtime.GOMAXPROCS(1)
+	debug.SetGCPercent(400) // executions allocate the library's 64 KiB buffers afresh: fewer collections, memory stays mapped // the scheduler hands a baton around; more Ps only add contention
 	if *worker != "" {
 		workerMain(*worker, *out)
 		return
@@ -314,6 +316,9 @@ func doReplay(prop, part, file string) {
 		os.Exit(2)
 	}
 	sp := rf.Case
+	if os.Getenv("VERIF_TRACE") != "" {
+		vsched.ReplayTrace = os.Stdout
+	}
 	d := partDefs[prop+"/"+part]
 	p := ev.NewPart(prop, part, "")
 	if d.Build == nil {
